@@ -104,7 +104,7 @@ func oracle(s, t NKind, z *big.Int, mode int) outcome {
 	return fitKind(t, roundRat(val, mode))
 }
 
-// floorRat: the defective rounding (toward negative infinity) of conversions from Fix128.
+// floorRat: rounding toward negative infinity (used to place source values around a bound).
 func floorRat(q *big.Rat) *big.Int {
 	return new(big.Int).Div(q.Num(), q.Denom()) // Euclidean; den > 0 => floor
 }
@@ -130,14 +130,6 @@ func classifyConv(s, t NKind, z *big.Int, mode int, rounding bool, got outcome) 
 		// every other source kind: ConvertFix64WithRounding / ConvertUFix64WithRounding delegate to the plain conversion
 	}
 	switch {
-	case s.Name == "Fix128" && !t.IsFixed() && z.Sign() < 0:
-		fl := floorRat(val)
-		if fitKind(t, fl).eq(got) {
-			if t.IsWord() {
-				return "conv-floor-not-trunc:Fix128->word"
-			}
-			return "conv-floor-not-trunc:Fix128->int"
-		}
 	case from128 && to64:
 		lo := new(big.Int).Mul(t.Min(), pow10(16))
 		hi := new(big.Int).Mul(t.Max(), pow10(16))
@@ -149,9 +141,6 @@ func classifyConv(s, t NKind, z *big.Int, mode int, rounding bool, got outcome) 
 				return "conv-neg-fraction-underflow:Fix128->UFix64"
 			}
 			return fmt.Sprintf("conv-range-before-trunc:%s->%s", s.Name, t.Name)
-		}
-		if z.Sign() < 0 && t.Name == "Fix64" && got.cls == "" && got.z.Cmp(floorRat(val)) == 0 {
-			return "conv-floor-not-trunc:Fix128->Fix64"
 		}
 	case t.Name == "Fix64" && !s.IsFixed() && z.Cmp(KindByName("Int64").Min()) < 0 && got.cls == lib.EOverflow:
 		return "conv-wrong-error-kind:bigint->Fix64"
@@ -621,8 +610,8 @@ func bi(s string) *big.Int {
 	return z
 }
 
-// witnesses: the inputs on which the unchanged tree violates the property (known findings),
-// exercised deterministically on every run.
+// witnesses: the inputs on which the tree violates (known findings) or used to violate (fixed by
+// 5739f35: the first eight) the property, exercised deterministically on every run.
 func witnesses() []witness {
 	e24 := pow10(24)
 	m15 := new(big.Int).Neg(new(big.Int).Quo(new(big.Int).Mul(big.NewInt(3), e24), big.NewInt(2)))
